@@ -352,6 +352,7 @@ func TestC01(t *testing.T) {
 	s.attackerTLS()
 	s.upgraderLevel()
 	s.transportLevel() // transport_test.go: real transports over loopback sockets, outside any bubble
+	s.quicSharedSocket()
 	r.Require("honest_completed_both", 20)
 	r.Require("expect_mismatch_rejected", 20)
 	r.Require("edits_applied", 500)
